@@ -31,4 +31,5 @@ func checkC01(r *Run) {
 	c.ruleErrBeforeDone(r8) // Done() before the error is recorded reads as a graceful end: the loop stops
 	c.ruleWrapKeepsHandle(r5)
 	c.ruleTaskContext(r4)
+	c.ruleLoopOutlivesConnectCtx(r8)
 }
